@@ -526,10 +526,43 @@ func (dp *DataProcessor) applyDistinct(results []map[string]any) []map[string]an
 	return finalResults
 }
 
+// containsKeywordWord reports whether keyword (upper case) occurs in s as a whole word outside quotes and back
+// quotes: the alias lowercase_n or the literal 'case' do not make a HAVING clause a CASE expression.
+func containsKeywordWord(s, keyword string) bool {
+	isWord := func(c byte) bool {
+		return c == '_' || (c >= 'a' && c <= 'z') || (c >= 'A' && c <= 'Z') || (c >= '0' && c <= '9')
+	}
+	var quote byte
+	for i := 0; i < len(s); i++ {
+		c := s[i]
+		if quote != 0 {
+			if c == quote {
+				quote = 0
+			}
+			continue
+		}
+		if c == '\'' || c == '"' || c == '`' {
+			quote = c
+			continue
+		}
+		if isWord(c) && (i == 0 || !isWord(s[i-1])) {
+			j := i
+			for j < len(s) && isWord(s[j]) {
+				j++
+			}
+			if strings.EqualFold(s[i:j], keyword) {
+				return true
+			}
+			i = j - 1
+		}
+	}
+	return false
+}
+
 // applyHavingFilter applies HAVING filter
 func (dp *DataProcessor) applyHavingFilter(results []map[string]any) []map[string]any {
 	// Check if HAVING condition contains CASE expression
-	hasCaseExpression := strings.Contains(strings.ToUpper(dp.stream.config.Having), SQLKeywordCase)
+	hasCaseExpression := containsKeywordWord(dp.stream.config.Having, SQLKeywordCase)
 
 	var filteredResults []map[string]any
 
@@ -579,6 +612,11 @@ func (dp *DataProcessor) applyHavingWithCaseExpression(results []map[string]any)
 		if havingResult != nil {
 			if numResult, ok := havingResult.(float64); ok {
 				if numResult > 0 {
+					filteredResults = append(filteredResults, result)
+				}
+			} else if boolResult, ok := havingResult.(bool); ok {
+				// a predicate that evaluates to false does not satisfy HAVING
+				if boolResult {
 					filteredResults = append(filteredResults, result)
 				}
 			} else if strResult, ok := havingResult.(string); ok {
